@@ -4,11 +4,14 @@
 // Rules (measured): never drop a NetcodeError (io::Error drop glue) -> call process_packet_internal and
 // mem::forget the Result; observe through the returned ServerResult + pre-state facts.
 use super::*;
-use crate::replay_protection::verif_kani::{any_window, rp_most_recent};
+use crate::replay_protection::verif_kani::{any_window, rp_most_recent, rp_slot};
 use crate::token::PrivateConnectToken;
 use crate::verif_models::chacha as aead;
 use crate::{NETCODE_CHALLENGE_TOKEN_BYTES, NETCODE_CONNECT_TOKEN_PRIVATE_BYTES};
 use std::net::{IpAddr, Ipv4Addr};
+
+static mut SEQ_KNOB: u64 = u64::MAX;
+static mut ONE_SLOT: bool = false;
 
 fn reset_ghost(mode: u8) {
     unsafe {
@@ -33,8 +36,14 @@ fn any_connection(addr: SocketAddr, state: ConnectionState, now: Duration) -> Co
     let last_recv = any_secs();
     let last_send = any_secs();
     kani::assume(last_recv <= now && last_send <= now);
-    let sequence: u64 = kani::any();
+    let mut sequence: u64 = kani::any();
     kani::assume(sequence < (1u64 << 62));
+    // knob: harnesses that seal a packet with a body at an offset that depends on the sequence length use the
+    // class-boundary sequences with concrete values (see DESIGN A.2 item 4)
+    let knob = unsafe { SEQ_KNOB };
+    if knob != u64::MAX {
+        sequence = knob;
+    }
     Connection {
         confirmed: kani::any(),
         client_id: kani::any(),
@@ -73,12 +82,12 @@ fn any_server(occ: [bool; 2]) -> (NetcodeServer, [Option<(u64, SocketAddr)>; 2])
     let global_sequence: u64 = kani::any();
     kani::assume(global_sequence >= (1u64 << 63) && global_sequence < u64::MAX - 8);
     let s = NetcodeServer {
-        clients: vec![c0, c1].into_boxed_slice(),
+        clients: if unsafe { ONE_SLOT } { std::mem::forget(c1); vec![c0].into_boxed_slice() } else { vec![c0, c1].into_boxed_slice() },
         pending_clients: HashMap::new(),
         connect_token_entries: Box::new([None; NETCODE_MAX_CLIENTS * 2]),
         protocol_id: kani::any(),
         connect_key: kani::any(),
-        max_clients: 2,
+        max_clients: if unsafe { ONE_SLOT } { 1 } else { 2 },
         challenge_sequence: kani::any::<u32>() as u64,
         challenge_key: kani::any(),
         public_addresses: vec![any_v4()],
@@ -155,12 +164,14 @@ srv_disconnect!(srv_disconnect_11, true, true);
 srv_disconnect!(srv_disconnect_01, false, true);
 
 // ---- C18 / C17: update_client: timeout exact, keep-alive timer, nonce ----------------------------------------
+macro_rules! srv_update_client {
+    ($name:ident, $o0:expr, $o1:expr, $k:expr) => {
 #[kani::proof]
 #[kani::unwind(40)]
-fn srv_update_client() {
+fn $name() {
     reset_ghost(1);
-    let (mut s, facts) = any_server([true, true]);
-    let k: usize = if kani::any() { 0 } else { 1 };
+    let (mut s, facts) = any_server([$o0, $o1]);
+    let k: usize = $k;
     let (id, addr) = facts[k].unwrap();
     let (timeout, last_recv, last_send, sq, key) = {
         let c = s.clients[k].as_ref().unwrap();
@@ -196,6 +207,11 @@ fn srv_update_client() {
     std::mem::forget(r);
     std::mem::forget(s);
 }
+    };
+}
+srv_update_client!(srv_update_client_11_k0, true, true, 0);
+srv_update_client!(srv_update_client_11_k1, true, true, 1);
+srv_update_client!(srv_update_client_01_k1, false, true, 1);
 
 /// update_client for an id that is not connected reports nothing (no disconnect without a connect)
 #[kani::proof]
@@ -224,9 +240,8 @@ fn srv_payload_route() {
     let id: u64 = kani::any();
     let pre = [s.clients[0].as_ref().map(|c| (c.sequence, c.send_key)), s.clients[1].as_ref().map(|c| (c.sequence, c.send_key))];
     let hit = if facts[0].map(|f| f.0) == Some(id) { Some(0) } else if facts[1].map(|f| f.0) == Some(id) { Some(1) } else { None };
-    let data = [5u8; 32];
-    let n: usize = kani::any();
-    kani::assume(n <= 32);
+    let data = [5u8; 8];
+    let n: usize = 8; // concrete: a symbolic-length copy into `out` explodes CBMC's array post-processing
     let r = s.generate_payload_packet(id, &data[..n]);
     let out = match &r {
         Ok((a, buf)) => Some((*a, buf.len())),
@@ -282,7 +297,7 @@ macro_rules! srv_resp_guard {
             let mut token_data = [ud_b; NETCODE_CHALLENGE_TOKEN_BYTES];
             token_data[..8].copy_from_slice(&id_b.to_le_bytes());
             let pkt = Packet::Response { token_sequence: ts, token_data };
-            let mut dgram = [0u8; 400];
+            let mut dgram = [0u8; 1 + 8 + 8 + NETCODE_CHALLENGE_TOKEN_BYTES + 16 + 7];
             reset_ghost(1);
             let pid = s.protocol_id;
             let seq: u64 = kani::any::<u8>() as u64 + 1;
@@ -561,10 +576,11 @@ fn srv_frame_connected_req() {
     let (mut s, facts) = any_server([true, false]);
     let (_, addr) = facts[0].unwrap();
     let lr = s.clients[0].as_ref().unwrap().last_packet_received_time;
-    let mut buf: [u8; 1100] = kani::any();
+    const REQ: usize = 1 + 13 + 8 + 8 + 24 + NETCODE_CONNECT_TOKEN_PRIVATE_BYTES;
+    let mut buf: [u8; REQ + 22] = kani::any();
     buf[0] = 0; // packet type 0 = connection request, sent in the clear
     let n: usize = kani::any();
-    kani::assume(n >= 1078 && n <= 1100);
+    kani::assume(n >= REQ && n <= REQ + 22);
     let r = s.process_packet_internal(addr, &mut buf[..n]);
     match &r {
         Ok(x) => assert!(result_code(x) == 0, "unauthenticated datagram from a connected address produced a payload / event / reply"),
@@ -585,6 +601,556 @@ fn srv_witness() {
     let (mut s, facts) = any_server([true, false]);
     let r = s.disconnect(facts[0].unwrap().0);
     if matches!(r, ServerResult::ClientDisconnected { .. }) {
+        assert!(false, "witness");
+    }
+    std::mem::forget(r);
+    std::mem::forget(s);
+}
+
+
+// =====================================================================================================================
+// CONTRACT variant ("contracts": server.rs calls into packet.rs / token.rs go to the contract functions, sizes shrunk:
+// DESIGN section A.7).  One server step per lemma from an arbitrary table state; the datagram's authenticity, kind,
+// sequence, the echoed challenge and the connect token are all symbolic (ghost statics of verif_models::contracts).
+use crate::packet::verif_kani::VERIF_REQUEST_BYTES;
+use crate::verif_models::contracts as ct;
+
+fn ns_any_window() -> ReplayProtection {
+    let rp = any_window();
+    kani::assume(rp_most_recent(&rp) < (1u64 << 62));
+    rp
+}
+
+/// declare THE authentic datagram in flight (all of it symbolic, including whether there is one at all)
+fn ns_any_auth() {
+    unsafe {
+        ct::AUTH = kani::any();
+        ct::AUTH_KEY = kani::any();
+        ct::AUTH_PID = kani::any();
+        ct::AUTH_KIND = kani::any();
+        ct::AUTH_SEQ = kani::any();
+        ct::AUTH_A = kani::any();
+        ct::AUTH_B = kani::any();
+        ct::AUTH_TOKEN = kani::any();
+        kani::assume(ct::AUTH_KIND >= 1 && ct::AUTH_KIND <= 6 && ct::AUTH_SEQ < (1u64 << 62));
+    }
+}
+
+fn ns_slot_facts(s: &NetcodeServer, k: usize) -> Option<(u64, SocketAddr)> {
+    s.clients[k].as_ref().map(|c| (c.client_id, c.addr))
+}
+
+// ---- C07 / C18 / C04 / C10: one datagram from the address of a CONNECTED client ------------------------------------
+macro_rules! ns_frame_connected {
+    ($name:ident, $o0:expr, $o1:expr, $k:expr, $len:expr) => {
+        #[kani::proof]
+        #[kani::unwind(40)]
+        fn $name() {
+            ct::reset();
+            let (mut s, facts) = any_server([$o0, $o1]);
+            let k: usize = $k;
+            let other: usize = 1 - k;
+            let (id, addr) = facts[k].unwrap();
+            let win = ns_any_window();
+            let (mr0, w_i) = (rp_most_recent(&win), kani::any::<usize>() % WINSZ);
+            let ws0 = rp_slot(&win, w_i);
+            s.clients[k].as_mut().unwrap().replay_protection = win;
+            let (lr, sq, conf, rkey) = {
+                let c = s.clients[k].as_ref().unwrap();
+                (c.last_packet_received_time, c.sequence, c.confirmed, c.receive_key)
+            };
+            let pid = s.protocol_id;
+            let gs0 = s.global_sequence;
+            ns_any_auth();
+            let genuine = unsafe { ct::AUTH && ct::AUTH_KEY == rkey && ct::AUTH_PID == pid };
+            let mut buf: [u8; $len] = kani::any();
+            // replay protection applies to keep-alive / payload / disconnect packets (kinds 4..6)
+            let fresh = {
+                let c = s.clients[k].as_ref().unwrap();
+                (unsafe { ct::AUTH_KIND }) < 4 || !c.replay_protection.already_received(unsafe { ct::AUTH_SEQ })
+            };
+            let r = s.process_packet_internal(addr, &mut buf[..]);
+            let authed = unsafe { ct::DEC_AUTHENTICATED };
+            if authed {
+                assert!(genuine, "a datagram was accepted that was not sealed under this session's receive key for this protocol id");
+                assert!(unsafe { ct::DEC_HAD_WINDOW }, "decoded without the session's replay window");
+            }
+            let mut disconnected = false;
+            match &r {
+                Ok(ServerResult::None) | Err(_) => {}
+                Ok(ServerResult::Payload { client_id, payload }) => {
+                    assert!(authed && unsafe { ct::AUTH_KIND } == 5 && fresh, "payload surfaced from a datagram that is not an authentic fresh payload packet");
+                    assert!(*client_id == id, "payload attributed to another client than the session it authenticated for");
+                    assert!(payload.len() + 1 + ct::sequence_bytes(unsafe { ct::AUTH_SEQ }) + 16 == $len);
+                }
+                Ok(ServerResult::ClientDisconnected { client_id, addr: a, payload }) => {
+                    assert!(authed && unsafe { ct::AUTH_KIND } == 6 && fresh, "client dropped by a datagram that is not an authentic fresh disconnect packet");
+                    assert!(*client_id == id && *a == addr && payload.is_none());
+                    disconnected = true;
+                }
+                Ok(_) => assert!(false, "reply / connect event for a datagram from an already connected address"),
+            }
+            kani::cover!(matches!(r, Ok(ServerResult::Payload { .. })), "payload surfaced");
+            kani::cover!(disconnected, "client disconnect");
+            kani::cover!(authed && !fresh, "replayed");
+            std::mem::forget(r);
+            assert!(unsafe { ct::NENC } == 0 && s.global_sequence == gs0, "something was sealed in response to a datagram from a connected address");
+            // the other slot is never touched
+            assert!(ns_slot_facts(&s, other) == facts[other], "another client's slot changed");
+            if disconnected {
+                assert!(s.clients[k].is_none(), "client reported disconnected but still in the table");
+            } else {
+                let c = s.clients[k].as_ref().unwrap();
+                assert!(c.client_id == id && c.addr == addr && c.sequence == sq && c.state == ConnectionState::Connected);
+                if !(authed && fresh) {
+                    // forged, foreign, mis-typed, replayed or unauthenticated (connection request) datagrams leave no trace
+                    assert!(c.last_packet_received_time == lr, "a datagram that did not authenticate postponed the client's timeout");
+                    assert!(c.confirmed == conf);
+                    assert!(rp_most_recent(&c.replay_protection) == mr0 && rp_slot(&c.replay_protection, w_i) == ws0, "replay window moved by an unauthentic datagram");
+                } else {
+                    assert!(c.last_packet_received_time == s.current_time, "authentic packet did not refresh the timeout clock");
+                }
+            }
+            std::mem::forget(s);
+        }
+    };
+}
+const WINSZ: usize = crate::replay_protection::verif_kani::WIN;
+ns_frame_connected!(ns_frame_connected_11_k0, true, true, 0, 40);
+ns_frame_connected!(ns_frame_connected_11_k1, true, true, 1, 40);
+ns_frame_connected!(ns_frame_connected_01_k1, false, true, 1, 40);
+ns_frame_connected!(ns_frame_connected_10_k0_req, true, false, 0, VERIF_REQUEST_BYTES);
+
+// ---- C18 / C17: update_client ------------------------------------------------------------------------------------
+macro_rules! ns_update_client {
+    ($name:ident, $o0:expr, $o1:expr, $k:expr) => {
+        #[kani::proof]
+        #[kani::unwind(40)]
+        fn $name() {
+            ct::reset();
+            let (mut s, facts) = any_server([$o0, $o1]);
+            let k: usize = $k;
+            let other: usize = 1 - k;
+            let (id, addr) = facts[k].unwrap();
+            let (timeout, last_recv, last_send, sq, key) = {
+                let c = s.clients[k].as_ref().unwrap();
+                (c.timeout_seconds, c.last_packet_received_time, c.last_packet_send_time, c.sequence, c.send_key)
+            };
+            let now = s.current_time;
+            let pid = s.protocol_id;
+            let maxc = s.max_clients;
+            let r = s.update_client(id);
+            let timed_out = timeout > 0 && last_recv + Duration::from_secs(timeout as u64) < now;
+            let due = last_send + NETCODE_SEND_RATE <= now;
+            let e = unsafe { ct::ENC[0] };
+            let nenc = unsafe { ct::NENC };
+            let mut gone = false;
+            match &r {
+                ServerResult::ClientDisconnected { client_id, addr: a, payload } => {
+                    assert!(timed_out, "live client timed out");
+                    assert!(*client_id == id && *a == addr && payload.is_some());
+                    assert!(nenc == 1 && e.kind == 6 && e.key == key && e.sequence == sq && e.protocol_id == pid, "disconnect not sealed under the session's (send key, sequence)");
+                    gone = true;
+                }
+                ServerResult::PacketToSend { addr: a, payload } => {
+                    assert!(!timed_out, "silent client kept alive");
+                    assert!(due, "keep-alive before the send timer elapsed");
+                    assert!(*a == addr && payload.len() == e.len && e.len <= 33);
+                    assert!(nenc == 1 && e.kind == 4 && e.key == key && e.sequence == sq && e.protocol_id == pid, "keep-alive not sealed under the session's (send key, sequence)");
+                    assert!(e.a == k as u64 && e.b == maxc as u64);
+                }
+                ServerResult::None => {
+                    assert!(!timed_out, "silent client not disconnected at update");
+                    assert!(!due, "keep-alive missing although the send timer elapsed");
+                    assert!(nenc == 0);
+                }
+                _ => assert!(false),
+            }
+            kani::cover!(timed_out, "timeout");
+            kani::cover!(matches!(r, ServerResult::PacketToSend { .. }), "keep alive");
+            let sent = matches!(r, ServerResult::PacketToSend { .. });
+            std::mem::forget(r);
+            assert!(ns_slot_facts(&s, other) == facts[other], "another client's slot changed");
+            if gone {
+                assert!(s.clients[k].is_none(), "timed-out client still in the table");
+            } else {
+                let c = s.clients[k].as_ref().unwrap();
+                assert!(c.client_id == id && c.last_packet_received_time == last_recv, "update refreshed the receive clock");
+                assert!(c.sequence == if sent { sq + 1 } else { sq }, "session sequence (nonce) not advanced exactly once per sealed packet");
+                assert!(c.last_packet_send_time == if sent { now } else { last_send });
+            }
+            std::mem::forget(s);
+        }
+    };
+}
+ns_update_client!(ns_update_client_11_k0, true, true, 0);
+ns_update_client!(ns_update_client_11_k1, true, true, 1);
+ns_update_client!(ns_update_client_01_k1, false, true, 1);
+
+/// ids that are not connected: update_client / disconnect / lookups report nothing and seal nothing
+#[kani::proof]
+#[kani::unwind(40)]
+fn ns_unknown_id() {
+    ct::reset();
+    let (mut s, facts) = any_server([true, false]);
+    let id: u64 = kani::any();
+    kani::assume(Some(id) != facts[0].map(|f| f.0));
+    let r = s.update_client(id);
+    assert!(matches!(r, ServerResult::None));
+    std::mem::forget(r);
+    let r = s.disconnect(id);
+    assert!(matches!(r, ServerResult::None));
+    std::mem::forget(r);
+    let data = [1u8; 4];
+    let r = s.generate_payload_packet(id, &data);
+    assert!(r.is_err());
+    std::mem::forget(r);
+    assert!(unsafe { ct::NENC } == 0);
+    assert!(!s.is_client_connected(id) && s.client_addr(id).is_none() && s.user_data(id).is_none());
+    assert!(ns_slot_facts(&s, 0) == facts[0]);
+    std::mem::forget(s);
+}
+
+// ---- C17 / C10 / C13: generate_payload_packet ------------------------------------------------------------------
+macro_rules! ns_payload_route {
+    ($name:ident, $o0:expr, $o1:expr, $k:expr, $n:expr) => {
+        #[kani::proof]
+        #[kani::unwind(40)]
+        fn $name() {
+            ct::reset();
+            let (mut s, facts) = any_server([$o0, $o1]);
+            let k: usize = $k;
+            let (id, addr) = facts[k].unwrap();
+            let (sq, key) = {
+                let c = s.clients[k].as_ref().unwrap();
+                (c.sequence, c.send_key)
+            };
+            let pid = s.protocol_id;
+            let now = s.current_time;
+            let data = [5u8; $n];
+            let r = s.generate_payload_packet(id, &data);
+            let out = match &r {
+                Ok((a, buf)) => Some((*a, buf.len())),
+                Err(_) => None,
+            };
+            std::mem::forget(r);
+            let e = unsafe { ct::ENC[0] };
+            if $n > NETCODE_MAX_PAYLOAD_BYTES {
+                assert!(out.is_none() && unsafe { ct::NENC } == 0, "payload above the limit accepted");
+            } else {
+                let (a, len) = out.unwrap();
+                assert!(a == addr, "payload routed to another address than the session authenticated for this id");
+                assert!(unsafe { ct::NENC } == 1 && e.kind == 5 && e.key == key && e.sequence == sq && e.protocol_id == pid, "payload not sealed under the session's (send key, sequence)");
+                assert!(len == e.len && len <= NETCODE_MAX_PACKET_BYTES);
+                let c = s.clients[k].as_ref().unwrap();
+                assert!(c.sequence == sq + 1, "session sequence (nonce) not advanced");
+                assert!(c.last_packet_send_time == now);
+            }
+            assert!(ns_slot_facts(&s, 1 - k) == facts[1 - k]);
+            std::mem::forget(s);
+        }
+    };
+}
+ns_payload_route!(ns_payload_route_11_k0, true, true, 0, 8);
+ns_payload_route!(ns_payload_route_11_k1, true, true, 1, 8);
+ns_payload_route!(ns_payload_route_max, false, true, 1, NETCODE_MAX_PAYLOAD_BYTES);
+ns_payload_route!(ns_payload_route_over, false, true, 1, NETCODE_MAX_PAYLOAD_BYTES + 1);
+
+// ---- C18: pending sessions expire with their token ---------------------------------------------------------------
+#[kani::proof]
+#[kani::unwind(40)]
+fn ns_update_pending() {
+    ct::reset();
+    let (mut s, facts) = any_server([true, false]);
+    let addr = any_v4();
+    kani::assume(Some(addr) != facts[0].map(|f| f.1));
+    let now = s.current_time;
+    let pending = any_connection(addr, ConnectionState::PendingResponse, now);
+    let expire = pending.expire_timestamp;
+    s.pending_clients.slots[0] = Some((addr, pending));
+    s.pending_clients.len = 1;
+    let d = any_secs();
+    s.update(d);
+    assert!(s.current_time == now + d);
+    let still = s.pending_clients.contains_key(&addr);
+    assert!(still == !((now + d).as_secs() > expire), "a pending session must be dropped exactly when its connect token has expired");
+    assert!(ns_slot_facts(&s, 0) == facts[0] && unsafe { ct::NENC } == 0);
+    kani::cover!(!still, "expired");
+    kani::cover!(still, "kept");
+    std::mem::forget(s);
+}
+
+// ---- C07 / C19: datagrams from an address that is neither connected nor pending ----------------------------------
+#[kani::proof]
+#[kani::unwind(40)]
+fn ns_frame_unknown() {
+    ct::reset();
+    let (mut s, facts) = any_server([true, false]);
+    let addr = any_v4();
+    kani::assume(Some(addr) != facts[0].map(|f| f.1));
+    let (gs, cs) = (s.global_sequence, s.challenge_sequence);
+    ns_any_auth();
+    let mut buf: [u8; 40] = kani::any();
+    let n: usize = kani::any();
+    kani::assume(n <= 40);
+    let r = s.process_packet_internal(addr, &mut buf[..n]);
+    // shorter than a connection request: whatever it claims to be, there is no session to authenticate it against
+    assert!(r.is_err(), "answer / event for a datagram that carries no connect token and belongs to no session");
+    std::mem::forget(r);
+    assert!(unsafe { ct::NENC } == 0 && !unsafe { ct::DEC_AUTHENTICATED });
+    assert!(s.global_sequence == gs && s.challenge_sequence == cs && s.pending_clients.is_empty() && ns_slot_facts(&s, 0) == facts[0], "state changed by junk from an unknown address");
+    std::mem::forget(s);
+}
+
+// ---- C05 / C19 / C17 / C10 / C18: the connection request ----------------------------------------------------------
+fn ns_any_token() {
+    unsafe {
+        ct::TOK = kani::any();
+        ct::TOK_KEY = kani::any();
+        ct::TOK_PID = kani::any();
+        ct::TOK_EXPIRE = kani::any();
+        ct::TOK_XNONCE = kani::any();
+        ct::TOK_DATA = kani::any();
+        ct::TOK_ID = kani::any();
+        ct::TOK_TIMEOUT = kani::any();
+        ct::TOK_ADDR0 = if kani::any() { Some(any_v4()) } else { None };
+        ct::TOK_ADDR1 = if kani::any() { Some(any_v4()) } else { None };
+        ct::TOK_C2S = kani::any();
+        ct::TOK_S2C = kani::any();
+        ct::TOK_UD = kani::any();
+    }
+}
+fn ns_any_request() {
+    unsafe {
+        ct::REQ_VERSION = kani::any();
+        ct::REQ_PID = kani::any();
+        ct::REQ_EXPIRE = kani::any();
+        ct::REQ_XNONCE = kani::any();
+        ct::REQ_DATA = kani::any();
+        ct::REQ_PARSES = kani::any();
+    }
+}
+
+macro_rules! ns_req_guard {
+    ($name:ident, $o0:expr, $o1:expr, $entries:expr, $pend:expr) => {
+        #[kani::proof]
+        #[kani::unwind(40)]
+        fn $name() {
+            ct::reset();
+            let (mut s, facts) = any_server([$o0, $o1]);
+            s.secure = kani::any();
+            s.max_clients = if kani::any() { 2 } else { 1 };
+            let addr = any_v4();
+            let now = s.current_time;
+            // table of used tokens: $entries entries with arbitrary macs / addresses
+            let mut e_mac = [0u8; NETCODE_MAC_BYTES];
+            let mut e_addr = addr;
+            if $entries == 1 {
+                e_mac = kani::any();
+                e_addr = any_v4();
+                s.connect_token_entries[0] = Some(ConnectTokenEntry { time: any_secs(), address: e_addr, mac: e_mac });
+            }
+            // optionally a session is already pending at this address (a repeated request)
+            let mut pend_id = 0u64;
+            if $pend {
+                let p = any_connection(addr, ConnectionState::PendingResponse, now);
+                pend_id = p.client_id;
+                s.pending_clients.slots[0] = Some((addr, p));
+                s.pending_clients.len = 1;
+            }
+            ns_any_token();
+            ns_any_request();
+            let (gs0, cs0) = (s.global_sequence, s.challenge_sequence);
+            let connected = ($o0 as usize) + ($o1 as usize);
+            let mut buf: [u8; VERIF_REQUEST_BYTES] = kani::any();
+            kani::assume(buf[0] & 0xF == 0);
+            let addr_connected = facts[0].map(|f| f.1) == Some(addr) || facts[1].map(|f| f.1) == Some(addr);
+            kani::assume(!addr_connected); // datagrams from connected addresses: ns_frame_connected_*
+            let r = s.process_packet_internal(addr, &mut buf[..]);
+            let opened = unsafe { ct::TOK_OPENED };
+            let mut replied = 0usize;
+            match &r {
+                Ok(ServerResult::PacketToSend { addr: a, payload }) => {
+                    assert!(*a == addr, "handshake reply sent to another address than the request's source");
+                    assert!(payload.len() < VERIF_REQUEST_BYTES, "reply not smaller than the request that triggered it");
+                    replied = payload.len();
+                }
+                Ok(ServerResult::None) | Err(_) => {}
+                Ok(_) => assert!(false, "a connection request produced a payload / connect / disconnect event"),
+            }
+            std::mem::forget(r);
+            let nenc = unsafe { ct::NENC };
+            let e = unsafe { ct::ENC[0] };
+            let id_connected = facts[0].map(|f| f.0) == Some(unsafe { ct::TOK_ID }) || facts[1].map(|f| f.0) == Some(unsafe { ct::TOK_ID });
+            let listed = unsafe { (ct::TOK_ADDR0.is_some() && ct::TOK_ADDR0 == Some(s.public_addresses[0])) || (ct::TOK_ADDR1.is_some() && ct::TOK_ADDR1 == Some(s.public_addresses[0])) };
+            let mut mac = [0u8; NETCODE_MAC_BYTES];
+            mac.copy_from_slice(unsafe { &ct::REQ_DATA[NETCODE_CONNECT_TOKEN_PRIVATE_BYTES - NETCODE_MAC_BYTES..] });
+            let foreign_binding = $entries == 1 && e_mac == mac && e_addr != addr;
+            let valid = unsafe { ct::REQ_PARSES && ct::REQ_VERSION == *NETCODE_VERSION_INFO && ct::REQ_PID == s.protocol_id && now.as_secs() < ct::REQ_EXPIRE }
+                && unsafe { ct::TOK && ct::TOK_KEY == s.connect_key && ct::TOK_PID == s.protocol_id && ct::TOK_EXPIRE == ct::REQ_EXPIRE && ct::TOK_XNONCE == ct::REQ_XNONCE && ct::TOK_DATA == ct::REQ_DATA }
+                && (!s.secure || listed);
+            if replied > 0 {
+                assert!(valid, "handshake reply to a request that is malformed, expired, for another protocol, or whose token is not authentic / not for this server");
+                assert!(opened && !id_connected && !foreign_binding, "reply although the client id is connected or the token is bound to another address");
+                assert!(nenc == 1 && e.len == replied && e.protocol_id == s.protocol_id);
+                assert!(e.key == unsafe { ct::TOK_S2C } && e.sequence == gs0, "handshake reply not sealed under (token's server-to-client key, server-wide sequence)");
+                assert!(s.global_sequence == gs0 + 1, "server-wide sequence not advanced after sealing a handshake reply (nonce reuse)");
+                if e.kind == 1 {
+                    assert!(connected >= s.max_clients, "denied although a slot is free");
+                    assert!(!s.pending_clients.contains_key(&addr), "denied request left a pending session");
+                    assert!(s.challenge_sequence == cs0);
+                } else {
+                    assert!(e.kind == 2 && connected < s.max_clients, "challenge issued although the server is full");
+                    assert!(s.challenge_sequence == cs0 + 1 && e.a == cs0 + 1, "challenge sequence not fresh");
+                    let g = unsafe { (ct::NGEN, ct::GEN_ID, ct::GEN_UD, ct::GEN_SEQ, ct::GEN_KEY) };
+                    assert!(g.0 == 1 && g.1 == unsafe { ct::TOK_ID } && g.2 == unsafe { ct::TOK_UD } && g.3 == cs0 + 1 && g.4 == s.challenge_key, "challenge does not seal this token's (client id, user data) under the challenge key");
+                    let p = s.pending_clients.get(&addr).unwrap();
+                    if $pend {
+                        assert!(p.client_id == pend_id, "an existing pending session was replaced");
+                    } else {
+                        assert!(p.client_id == unsafe { ct::TOK_ID } && p.addr == addr && p.state == ConnectionState::PendingResponse);
+                        assert!(p.send_key == unsafe { ct::TOK_S2C } && p.receive_key == unsafe { ct::TOK_C2S } && p.user_data == unsafe { ct::TOK_UD });
+                        assert!(p.timeout_seconds == unsafe { ct::TOK_TIMEOUT } && p.expire_timestamp == unsafe { ct::REQ_EXPIRE } && p.sequence == 0 && !p.confirmed);
+                    }
+                }
+            } else {
+                assert!(nenc == 0 && s.global_sequence == gs0 && s.challenge_sequence == cs0, "counters moved without a reply");
+                if !$pend {
+                    assert!(s.pending_clients.is_empty(), "pending session created without a challenge");
+                }
+                // progress (C18): a valid request from a client that is not connected, with a usable token, is answered
+                if valid && !id_connected && !foreign_binding {
+                    assert!(false, "valid connection request ignored");
+                }
+            }
+            if !opened {
+                // a request whose token did not authenticate registers nothing
+                let mut j = 0;
+                while j < NETCODE_MAX_CLIENTS * 2 {
+                    match &s.connect_token_entries[j] {
+                        Some(en) => assert!($entries == 1 && j == 0 && en.mac == e_mac && en.address == e_addr, "unauthentic request registered / rewrote a token entry"),
+                        None => assert!(!($entries == 1 && j == 0), "token entry lost"),
+                    }
+                    j += 1;
+                }
+            }
+            assert!(ns_slot_facts(&s, 0) == facts[0] && ns_slot_facts(&s, 1) == facts[1], "connection table changed by a connection request");
+            kani::cover!(replied > 0 && e.kind == 2, "challenge");
+            kani::cover!(replied > 0 && e.kind == 1, "denied");
+            kani::cover!(valid && replied == 0, "valid but refused");
+            std::mem::forget(s);
+        }
+    };
+}
+ns_req_guard!(ns_req_guard_00_e0, false, false, 0, false);
+ns_req_guard!(ns_req_guard_10_e1, true, false, 1, false);
+ns_req_guard!(ns_req_guard_11_e0, true, true, 0, false);
+ns_req_guard!(ns_req_guard_10_e0_pend, true, false, 0, true);
+
+// ---- C05 / C10 / C17 / C19 / C18: the connection response -------------------------------------------------------
+macro_rules! ns_resp_guard {
+    ($name:ident, $o0:expr, $o1:expr) => {
+        #[kani::proof]
+        #[kani::unwind(40)]
+        fn $name() {
+            ct::reset();
+            let (mut s, facts) = any_server([$o0, $o1]);
+            let addr = any_v4();
+            kani::assume(facts[0].map(|f| f.1) != Some(addr) && facts[1].map(|f| f.1) != Some(addr));
+            let now = s.current_time;
+            let mut pending = any_connection(addr, ConnectionState::PendingResponse, now);
+            pending.user_data = kani::any();
+            pending.replay_protection = ns_any_window();
+            let (id_a, ud_a, rkey, skey, psq) = (pending.client_id, pending.user_data, pending.receive_key, pending.send_key, pending.sequence);
+            s.pending_clients.slots[0] = Some((addr, pending));
+            s.pending_clients.len = 1;
+            ns_any_auth();
+            unsafe {
+                // the one challenge in existence that opens under CHAL_KEY (issued for ANY id with ANY user data)
+                ct::CHAL = kani::any();
+                ct::CHAL_KEY = kani::any();
+                ct::CHAL_SEQ = kani::any();
+                ct::CHAL_DATA = kani::any();
+                ct::CHAL_ID = kani::any();
+                ct::CHAL_UD = kani::any();
+            }
+            let pid = s.protocol_id;
+            let gs0 = s.global_sequence;
+            let maxc = s.max_clients;
+            let chkey = s.challenge_key;
+            let connected_before = [facts[0].map(|f| f.0), facts[1].map(|f| f.0)];
+            const LEN: usize = 1 + 8 + 8 + NETCODE_CHALLENGE_TOKEN_BYTES + 16;
+            let mut buf: [u8; LEN] = kani::any();
+            let prefix = buf[0];
+            let r = s.process_packet_internal(addr, &mut buf[..]);
+            // the datagram presented IS the authentic response of this session (prefix byte = kind 3 | sequence length)
+            let genuine_outer = unsafe { ct::AUTH && ct::AUTH_KEY == rkey && ct::AUTH_PID == pid && ct::AUTH_KIND == 3 }
+                && prefix & 0xF == 3 && (prefix >> 4) as usize == ct::sequence_bytes(unsafe { ct::AUTH_SEQ });
+            let own_challenge = unsafe {
+                ct::CHAL && ct::CHAL_KEY == chkey && ct::AUTH_A == ct::CHAL_SEQ && ct::AUTH_TOKEN == ct::CHAL_DATA && ct::CHAL_ID == id_a && ct::CHAL_UD == ud_a
+            };
+            let e = unsafe { ct::ENC[0] };
+            let nenc = unsafe { ct::NENC };
+            let free = !($o0 && $o1);
+            let mut connected = false;
+            let mut replied = false;
+            match &r {
+                Ok(ServerResult::ClientConnected { client_id, addr: a, user_data, payload }) => {
+                    assert!(*a == addr, "connected at another address than the pending session's");
+                    assert!(*client_id == id_a, "connected under an id other than the pending session's");
+                    assert!(genuine_outer, "connected by a response that is not authentic for the pending session");
+                    assert!(own_challenge, "connected by a response that does not echo the challenge issued for THIS session (id and user data)");
+                    assert!(**user_data == ud_a, "reported user data is not the data sealed in this session's token");
+                    assert!(connected_before[0] != Some(*client_id) && connected_before[1] != Some(*client_id), "duplicate client id in the connection table");
+                    assert!(free, "connected although every slot was taken");
+                    assert!(nenc == 1 && e.kind == 4 && e.key == skey && e.sequence == psq && e.len == payload.len() && e.b == maxc as u64, "first keep-alive not sealed under the session's (send key, sequence)");
+                    connected = true;
+                }
+                Ok(ServerResult::PacketToSend { addr: a, payload }) => {
+                    assert!(*a == addr && payload.len() < LEN, "reply to another address / amplification");
+                    assert!(genuine_outer && own_challenge && !free, "denied reply although the response was not valid or a slot was free");
+                    assert!(nenc == 1 && e.kind == 1 && e.key == skey && e.sequence == gs0, "denied reply not sealed under (session send key, server-wide sequence)");
+                    replied = true;
+                }
+                Ok(ServerResult::None) | Err(_) => {}
+                Ok(_) => assert!(false, "payload / disconnect event from a pending address"),
+            }
+            kani::cover!(connected, "connects");
+            kani::cover!(replied, "denied");
+            std::mem::forget(r);
+            assert!(s.global_sequence == if replied { gs0 + 1 } else { gs0 }, "server-wide sequence must advance exactly when a handshake reply was sealed with it (nonce reuse under the session key otherwise)");
+            if connected {
+                assert!(!s.pending_clients.contains_key(&addr), "session both pending and connected");
+                let slot = if $o0 { 1 } else { 0 };
+                let c = s.clients[slot].as_ref().unwrap();
+                assert!(c.client_id == id_a && c.addr == addr && c.state == ConnectionState::Connected && c.sequence == psq + 1 && c.send_key == skey && c.receive_key == rkey);
+                assert!(ns_slot_facts(&s, 1 - slot) == facts[1 - slot]);
+            } else {
+                assert!(ns_slot_facts(&s, 0) == facts[0] && ns_slot_facts(&s, 1) == facts[1], "connection table changed without a connect event");
+                assert!(nenc == if replied { 1 } else { 0 });
+                // progress (C18): an authentic, fresh response with this session's own challenge connects when a slot is free
+                let id_taken = connected_before[0] == Some(id_a) || connected_before[1] == Some(id_a);
+                if genuine_outer && own_challenge && free && !id_taken {
+                    assert!(false, "valid connection response did not connect the client");
+                }
+            }
+            std::mem::forget(s);
+        }
+    };
+}
+ns_resp_guard!(ns_resp_guard_00, false, false);
+ns_resp_guard!(ns_resp_guard_10, true, false);
+ns_resp_guard!(ns_resp_guard_01, false, true);
+ns_resp_guard!(ns_resp_guard_11, true, true);
+
+/// vacuity witness of the contract variant (must FAIL)
+#[kani::proof]
+#[kani::unwind(40)]
+fn ns_witness() {
+    ct::reset();
+    let (mut s, facts) = any_server([true, false]);
+    let r = s.update_client(facts[0].unwrap().0);
+    if unsafe { ct::NENC } == 1 {
         assert!(false, "witness");
     }
     std::mem::forget(r);
